@@ -2,10 +2,13 @@ package c19
 
 // goz.Recover used directly (it is exported): every combination of
 //   fn        ∈ { returns, panics with an int / nil / an error / a struct value / a typed
-//                nil pointer, map, slice, func, chan / a run-time error / … (specialVals) }
+//                nil pointer, map, slice, func, chan / a run-time error / … (specialVals),
+//                panic(nil) under GODEBUG=panicnil=1 (`pnil1`), runtime.Goexit (`goexit`) }
 //   handler   ∈ { set, nil (the fallback print path) }
-//   cleanups  = 0..4 functions, each returning or panicking with an int
-// is run in-process. Three answers are compared per combination:
+//   cleanups  = 0..4 functions, each returning or panicking with an int, plus lists in which
+//               one cleanup ends with `pnil1` or `goexit`
+// is run in-process, each in a goroutine of its own (Goexit ends the goroutine: whether
+// Recover came back to its caller is part of the observation). Three answers are compared per combination:
 //   * what really happened (handler calls in order, which cleanups ran, whether a panic
 //     escaped from Recover);
 //   * an independent oracle written from the property text (the handler gets the panic
@@ -17,6 +20,7 @@ package c19
 import (
 	"fmt"
 	"os"
+	"runtime"
 	"strconv"
 	"strings"
 
@@ -36,9 +40,10 @@ func (c recCase) line() string {
 }
 
 type recObs struct {
-	handled []string
-	ran     []int
-	escaped string // "" or the rendering of a panic that escaped from Recover
+	handled  []string
+	ran      []int
+	escaped  string // "" or the rendering of a panic that escaped from Recover
+	noReturn bool   // Recover did not come back to its caller (the goroutine was ended by Goexit)
 }
 
 func (o recObs) String() string {
@@ -47,6 +52,9 @@ func (o recObs) String() string {
 		rs[i] = strconv.Itoa(r)
 	}
 	s := "handled=[" + strings.Join(o.handled, " ") + "] ran=[" + strings.Join(rs, " ") + "]"
+	if o.noReturn {
+		s += " goexit"
+	}
 	if o.escaped != "" {
 		s += " ESCAPED:" + o.escaped
 	}
@@ -73,45 +81,63 @@ func runRecover(c recCase) (obs recObs) {
 			obs.handled = append(obs.handled, "v:"+tokOf(v))
 		}
 	}
-	fn := func() {
-		if c.fn != "ok" {
-			doPanic(strings.TrimPrefix(c.fn, "p:"))
+	end := func(k string) {
+		switch {
+		case k == "ok":
+		case k == "pnil1":
+			panicNil(true)
+		case k == "goexit":
+			runtime.Goexit()
+		default:
+			doPanic(strings.TrimPrefix(k, "p:"))
 		}
 	}
+	fn := func() { end(c.fn) }
 	var cl []func()
 	for i, k := range c.cleanups {
 		i, k := i, k
 		cl = append(cl, func() {
 			obs.ran = append(obs.ran, i)
-			if k != "ok" {
-				n, _ := strconv.Atoi(strings.TrimPrefix(k, "p:"))
-				panic(n)
-			}
+			end(k)
 		})
 	}
-	defer func() {
-		if p := recover(); p != nil {
-			obs.escaped = fmt.Sprint(p)
-		}
+	done := make(chan struct{})
+	go func() {
+		defer close(done)
+		defer func() {
+			if p := recover(); p != nil {
+				obs.escaped = fmt.Sprint(p)
+			}
+		}()
+		obs.noReturn = true
+		goz.Recover(fn, handler, cl...)
+		obs.noReturn = false
 	}()
-	goz.Recover(fn, handler, cl...)
+	<-done
 	return obs
 }
 
 // the property's own reading of Recover (independent of the Lean model)
+// (panic(nil) under panicnil=1 and Goexit are invisible to recover(): nothing is reported for
+// them; Goexit — in fn or in a cleanup — ends the goroutine after the deferred work.)
 func recOracle(c recCase) recObs {
 	var o recObs
-	if c.fn != "ok" && c.handler {
+	if strings.HasPrefix(c.fn, "p:") && c.handler {
 		o.handled = append(o.handled, "v:"+strings.TrimPrefix(c.fn, "p:"))
 	}
+	o.noReturn = c.fn == "goexit"
 	for i, k := range c.cleanups {
 		o.ran = append(o.ran, i)
-		if k != "ok" {
-			if c.handler {
-				o.handled = append(o.handled, fmt.Sprintf("c:%s@%d", strings.TrimPrefix(k, "p:"), i))
-			}
-			break
+		if k == "ok" {
+			continue
 		}
+		if strings.HasPrefix(k, "p:") && c.handler {
+			o.handled = append(o.handled, fmt.Sprintf("c:%s@%d", strings.TrimPrefix(k, "p:"), i))
+		}
+		if k == "goexit" {
+			o.noReturn = true
+		}
+		break
 	}
 	return o
 }
@@ -121,6 +147,7 @@ func recoverCases() []recCase {
 	for _, sv := range specialVals {
 		fns = append(fns, "p:"+sv)
 	}
+	fns = append(fns, "pnil1", "goexit")
 	var cls [][]string
 	var rec func(cur []string, depth int)
 	rec = func(cur []string, depth int) {
@@ -133,6 +160,10 @@ func recoverCases() []recCase {
 		}
 	}
 	rec(nil, 0)
+	// a cleanup that ends silently: panic(nil) under panicnil=1, or Goexit
+	for _, k := range []string{"pnil1", "goexit"} {
+		cls = append(cls, []string{k}, []string{"ok", k, "ok"}, []string{k, "p:11"}, []string{"ok", "ok", k}, []string{"p:10", k})
+	}
 	var out []recCase
 	for _, f := range fns {
 		for _, cl := range cls {
@@ -157,7 +188,7 @@ func recoverExtra(ctx *core.Ctx) (int, string, []core.ExtraFailure) {
 			obs := runRecover(c)
 			os.Stdout = saved
 			c, obs := c, obs
-			if want := recOracle(c); obs.String() != want.String() && len(fails) == 0 {
+			if want := recOracle(c); tolerant(c, obs.String()) != want.String() && len(fails) == 0 {
 				fails = append(fails, recFailure("recover-direct", c, obs.String(), want.String(), "the property's reading of Recover"))
 			}
 			continue
@@ -173,7 +204,7 @@ func recoverExtra(ctx *core.Ctx) (int, string, []core.ExtraFailure) {
 		obs := runRecover(c)
 		got = append(got, obs.String())
 		lines = append(lines, c.line())
-		if want := recOracle(c); obs.String() != want.String() && len(fails) == 0 {
+		if want := recOracle(c); tolerant(c, obs.String()) != want.String() && len(fails) == 0 {
 			fails = append(fails, recFailure("recover-direct", c, obs.String(), want.String(), "the property's reading of Recover"))
 		}
 	}
@@ -187,7 +218,18 @@ func recoverExtra(ctx *core.Ctx) (int, string, []core.ExtraFailure) {
 			fails = append(fails, recFailure("recover-model", c, got[i], model[0][i+1], "the Lean model recoverRun (c19_recover)"))
 		}
 	}
-	return len(cases), fmt.Sprintf("Recover called directly: %d combinations (fn outcome × handler set/nil × 0..4 cleanups returning/panicking), %d diffed against the Lean model", len(cases), len(withHandler)), fails
+	return len(cases), fmt.Sprintf("Recover called directly: %d combinations (fn ending — return, panic with 14 kinds of values, panic(nil) under GODEBUG=panicnil=1, runtime.Goexit — × handler set/nil × 0..4 cleanups returning/panicking, plus cleanups ending with panic(nil) under panicnil=1 / Goexit), %d diffed against the Lean model", len(cases), len(withHandler)), fails
+}
+
+// tolerant: for fn = panic(nil) under panicnil=1 there is no value to deliver; the code as it
+// is does not call the handler, a call with the nil interface is tolerated by the property's
+// reading (the comparison with the Lean model still shows it).
+func tolerant(c recCase, got string) string {
+	if c.fn == "pnil1" {
+		got = strings.Replace(got, "handled=[v:other:untyped-nil ", "handled=[", 1)
+		got = strings.Replace(got, "handled=[v:other:untyped-nil]", "handled=[]", 1)
+	}
+	return got
 }
 
 func recFailure(key string, c recCase, got, want, who string) core.ExtraFailure {
